@@ -2,7 +2,7 @@
 
 TLC decides the bounded instances; these runs discharge `Init0 => IndInv` (length 0) and `IndInv /\\ Next => IndInv'` (length 1,
 started from an arbitrary state satisfying IndInv) plus action invariants, for EVERY value of the parameters (cycle length K,
-time limit N, update interval K).  Each proof has a mutant (a realistic mistake in the action) for which the induction step
+time limit N, update interval K; for the replay ring: every number of insertions at capacities 1..8).  Each proof has a mutant (a realistic mistake in the action) for which the induction step
 must fail: a vacuity guard.  Run with the checks of the listed properties; about 3 s per run."""
 from __future__ import annotations
 
@@ -22,6 +22,8 @@ PROOFS = {
     "TimeLimit_ind": (["C13", "C01"], [("Init0", "IndInv", 0), ("IndInit", "IndInv", 1), ("IndInit", "TruncExact", 1),
                                        ("IndInit", "RestartWhenDone", 1)],
                       ("tr == itr \\/ c1 >= N", "tr == itr \\/ c1 > N", "IndInv")),
+    "Ring_ind": (["C06"], [("Init0", "IndInv", 0), ("IndInit", "IndInv", 1), ("IndInit", "Recent", 0)],
+                 ("![pos % C] = pos]", "![(pos + 1) % C] = pos]", "IndInv")),
     "Target_ind": (["C10"], [("Init0", "IndInv", 0), ("IndInit", "IndInv", 1), ("IndInit", "UnchangedInBetween", 1)],
                    ("tgt' = IF (iter + 1) % K = 0 THEN iter + 1 ELSE tgt", "tgt' = IF iter % K = 0 THEN iter + 1 ELSE tgt", "IndInv")),
 }
@@ -32,7 +34,8 @@ def check(path: Path, init: str, inv: str, length: int, out: Path, timeout: int 
     exe = shutil.which("apalache-mc")
     if exe is None:
         raise Machinery("apalache-mc not on PATH")
-    p = subprocess.run([exe, "check", f"--init={init}", f"--inv={inv}", f"--length={length}", f"--out-dir={out}", path.name],
+    cinit = ["--cinit=CInit"] if "\nCInit ==" in path.read_text() else []
+    p = subprocess.run([exe, "check", *cinit, f"--init={init}", f"--inv={inv}", f"--length={length}", f"--out-dir={out}", path.name],
                        cwd=str(path.parent), capture_output=True, text=True, timeout=timeout)
     txt = p.stdout + p.stderr
     if "The outcome is: NoError" in txt:
